@@ -143,7 +143,9 @@ def segment_case(draw):
 
 CHORD_LABELS = ["N", "C", "C:maj", "C:min", "G:7", "G:maj7", "A:min7", "F#:dim", "Db:aug", "E:sus4", "Bb:maj6", "D:9", "D:min9", "C:maj/3",
                 "C:maj/5", "G:7/b7", "A:min/b3", "F:maj(9)", "F:(1,3,5)", "X", "B:hdim7", "C#:min", "Db:min", "E:5", "E:1", "C:maj(*3)",
-                "A:13", "G:min11", "C:11"]
+                "A:13", "G:min11", "C:11",
+                # extended shorthands WITH an explicit degree list (reduction merges table degrees and label degrees)
+                "D:9(*3)", "A:13(*5)", "G:min11(*b3)", "D:9(11)", "C:maj9(*5)"]
 
 
 @st.composite
